@@ -650,6 +650,13 @@ func (st *Stack) compactRange(first, last int, expiration *LogExpirationConfig) 
 
 	defer lockFile.Close()
 
+	// The list lock was released while merging: another process may have
+	// added or compacted tables meanwhile. Writing the list from our
+	// in-memory stack would then drop its changes, so give up instead.
+	if ok, err := st.UpToDate(); !ok || err != nil {
+		return false, err
+	}
+
 	fn := formatName(
 		st.stack[first].MinUpdateIndex(),
 		st.stack[last].MaxUpdateIndex())
